@@ -144,6 +144,19 @@ def install():
         return ret
     TaskPool.spawn_on_output = spawn_on_output
 
+    # RELOAD ----------------------------------------------------------------
+    orig_reload = TaskPool.reload
+
+    @functools.wraps(orig_reload)
+    def reload(self, config):
+        from vlib.e1.driver import snap_pool
+        ev = _emit('RELOAD_IN', pool=snap_pool(self))
+        ret = orig_reload(self, config)
+        _emit('RELOAD_OUT', pool=snap_pool(self),
+              in_seq=ev['seq'] if ev else None)
+        return ret
+    TaskPool.reload = reload
+
     # RUNAHEAD --------------------------------------------------------------
     orig_rr = TaskPool.release_runahead_tasks
 
